@@ -33,7 +33,14 @@ type Obligation struct {
 	Tagged   bool // requires-clause explicitly tagged with the property under check
 }
 
+// condRec: a branch condition and the number of context lines that define it
+type condRec struct {
+	term  string
+	lines int
+}
+
 type VC struct {
+	conds []condRec
 	isQuant int
 	oblNames map[string]int
 	modElem map[string]bool
@@ -222,6 +229,22 @@ func (vc *VC) oblige(kind, name, clause, cond, goal string, pos token.Pos, claim
 	// later code may rely on it
 	vc.assume(cond, goal)
 	return o
+}
+
+// SplitConds: the (up to n) most recent distinct branch conditions visible to
+// the obligation; used to retry an undecided query by case analysis.
+func (o *Obligation) SplitConds(n int) []string {
+	var out []string
+	seen := map[string]bool{}
+	for i := len(o.vc.conds) - 1; i >= 0 && len(out) < n; i-- {
+		c := o.vc.conds[i]
+		if c.lines > o.NLines || seen[c.term] {
+			continue
+		}
+		seen[c.term] = true
+		out = append(out, c.term)
+	}
+	return out
 }
 
 // Script renders the SMT-LIB query of an obligation.
@@ -588,9 +611,18 @@ func (vc *VC) merge(ins []mergeIn) *State {
 			}
 			continue
 		}
-		m := vc.fresh(k, vc.hsort[k])
-		for _, in := range ins {
-			vc.emit("(assert " + sImp(in.cond, sEq(m, vc.look(in.st, k))) + ")")
+		var m string
+		if vc.iteMerge() {
+			var pairs [][2]string
+			for _, in := range ins {
+				pairs = append(pairs, [2]string{in.cond, vc.look(in.st, k)})
+			}
+			m = vc.def(k, vc.hsort[k], iteChain(pairs))
+		} else {
+			m = vc.fresh(k, vc.hsort[k])
+			for _, in := range ins {
+				vc.emit("(assert " + sImp(in.cond, sEq(m, vc.look(in.st, k))) + ")")
+			}
 		}
 		out.H[k] = m
 	}
@@ -950,4 +982,20 @@ func (vc *VC) slAt(sort string) string {
 		vc.emit(fmt.Sprintf("(assert (forall ((r (Array Int %s)) (o Int) (i Int)) (! (= (%s r o i) (select r (+ o i))) :pattern ((%s r o i)))))", sort, fn, fn))
 	}
 	return fn
+}
+
+// iteMerge: join points define merged values as if-then-else terms instead of
+// fresh constants constrained per incoming edge (contract flag "ite-merge").
+func (vc *VC) iteMerge() bool {
+	return vc.contract != nil && vc.contract.Flags["ite-merge"]
+}
+
+// iteChain: (ite c1 v1 (ite c2 v2 ... vn)); the last value needs no guard (some
+// incoming edge is taken whenever the join is reached).
+func iteChain(pairs [][2]string) string {
+	t := pairs[len(pairs)-1][1]
+	for i := len(pairs) - 2; i >= 0; i-- {
+		t = sIte(pairs[i][0], pairs[i][1], t)
+	}
+	return t
 }
